@@ -89,6 +89,18 @@ func (harness) Configs(tier string) []xplore.Config {
 	for p := 1; p <= maxP; p++ {
 		multis(p, 0, nil)
 	}
+	// more distinct pending items than fit one hash-map bucket (8), then an
+	// item re-inserted after it was delivered while others are still pending
+	var many []string
+	for i := 0; i < 10; i++ {
+		many = append(many, fmt.Sprintf("i%d", i))
+	}
+	for _, again := range []string{"i0", "i1"} {
+		for _, cl := range []bool{false, true} {
+			sc := append(append([]string{}, many...), again)
+			out = append(out, xplore.Config{Name: fmt.Sprintf("P=i0..i9,%s close=%v cancel=false (10 distinct pending items)", again, cl), Bound: bound, Data: cfgData{prods: [][]string{sc}, closer: cl}})
+		}
+	}
 	return out
 }
 
@@ -364,7 +376,7 @@ func step(m mstate, o op, overlapClose bool) []mstate {
 
 func linearizable(all []op) string {
 	n := len(all)
-	if n > 20 {
+	if n > 30 {
 		return "history too long for the checker"
 	}
 	var closeInv int64 = -1
